@@ -22,13 +22,13 @@ import (
 // service may remain: no client connection, no backend connection, no goroutine.
 
 type raCase struct {
-	Masters  int  `json:"masters"`
-	Conns    int  `json:"conns"`
-	Remove   int  `json:"remove"`       // how many hosts the update removes (clipped to the number of hosts)
-	WarmMs   int  `json:"warm_ms"`      // traffic runs this long before the update
-	GapUs    int  `json:"gap_us"`       // Stop follows the return of the update this much later
-	Replace  bool `json:"replace"`      // OnSvcAllHostReplace with the remaining hosts instead of OnSvcHostRemove
-	Window   int  `json:"window"`       // requests each client keeps in flight
+	Masters int  `json:"masters"`
+	Conns   int  `json:"conns"`
+	Remove  int  `json:"remove"`  // how many hosts the update removes (clipped to the number of hosts)
+	WarmMs  int  `json:"warm_ms"` // traffic runs this long before the update
+	GapUs   int  `json:"gap_us"`  // Stop follows the return of the update this much later
+	Replace bool `json:"replace"` // OnSvcAllHostReplace with the remaining hosts instead of OnSvcHostRemove
+	Window  int  `json:"window"`  // requests each client keeps in flight
 }
 
 func checkRemoveAll(c raCase) *verdict {
